@@ -224,7 +224,7 @@ class C09(Check):
                    'dist.update is compared through distogram.count / bounds / mean / bins against a reference fold with the same library']
     ANCHORS = ['rxsci/operators/scan.py', 'rxsci/operators/count.py', 'rxsci/data/to_list.py', 'rxsci/data/to_array.py', 'rxsci/math/dist/__init__.py']
     REQUIRED_TAGS = ['plain', 'mux', 'group', 'roll', 'roll_eq', 'split', 'time_split', 'generic', 'named', 'reduce', 'streaming', 'terminator',
-                     'factory', 'value-seed', 'mutable', 'empty-lifetime', 'scale', 'numpy-items', 'factory-that-is-not-a-function', 'exact-number-items'] + PRELUDE_TAGS + ['op=' + n[0] for n in NAMED]
+                     'factory', 'value-seed', 'mutable', 'empty-lifetime', 'scale', 'numpy-items', 'numpy-vector-items', 'factory-that-is-not-a-function', 'exact-number-items'] + ['history-fed-more-than-the-judged-stream'] + PRELUDE_TAGS + ['op=' + n[0] for n in NAMED]
     REQUIRED_OBSERVED = ['accumulator_calls', 'terminator_calls', 'factory_calls', 'lifetimes_checked', 'identity_checks']
 
     def generate(self, rng, tier, shard, nshards):
@@ -255,6 +255,8 @@ class C09(Check):
                 case = {'kind': 'named', 'op': NAMED[(k // 3) % len(NAMED)], 'ctx': ctx, 'ctx_node': node, 'items': items}
                 if case['op'][0] in ('duc', 'min', 'max', 'to_list', 'batch', 'count') and (k // 3) % 4 == 1 and ctx != 'time_split':
                     case['conv'] = 'np'          # numpy.int64 items: comparisons return numpy.bool_, not the object True
+                elif case['op'][0] in ('variance', 'mean') and (k // 3) % 4 == 3 and ctx in ('plain', 'mux', 'roll', 'roll_eq'):
+                    case['conv'] = 'npvec'       # numpy float vectors: objects with IN-PLACE arithmetic (`m += d` changes the object m names)
                 elif case['op'][0] in ('variance', 'min', 'max', 'count', 'to_list', 'duc') and (k // 3) % 4 == 2 and ctx != 'time_split':
                     case['conv'] = ('fraction', 'decimal')[(k // 12) % 2]
                 yield case
@@ -479,6 +481,10 @@ class C09(Check):
             import numpy
             case = dict(case, items=[numpy.int64(x) for x in case['items']])
             out.tags.append('numpy-items')
+        elif case.get('conv') == 'npvec':
+            import numpy
+            case = dict(case, items=[numpy.array([float(x), 2.0 * x + 1.0]) for x in case['items']])
+            out.tags.append('numpy-vector-items')
         elif case.get('conv') in ('fraction', 'decimal'):
             # exact number types that mix with int but not (Decimal) or not exactly (Fraction) with float: a fold that
             # seeds or scales with a float literal fails or silently rounds
@@ -492,6 +498,16 @@ class C09(Check):
             out.tags.append('reduce')
         ctx = case['ctx']
         log = []
+        if case.get('conv'):
+            # the operators own their state, not the items: what the source emitted is left as it was
+            before = [norm(x) for x in case['items']]
+            out2 = self._eval_named_inner(case, out, node, ctx, log)
+            if not out2.failures and [norm(x) for x in case['items']] != before:
+                return out2.fail('the-source-items-were-changed', op=node, before=before[:4], after=[norm(x) for x in case['items']][:4])
+            return out2
+        return self._eval_named_inner(case, out, node, ctx, log)
+
+    def _eval_named_inner(self, case, out, node, ctx, log):
         if ctx == 'plain':
             op_ = self._named_builder(node)()
             s = progs.run_obs(lambda src: src.pipe(op_), case['items'], prelude=case.get('prelude'))
